@@ -167,11 +167,18 @@ class _ScriptedQueue:
 
 
 class _FakeThread:
-    def __init__(self, q):
+    def __init__(self, q, idx=0):
         self.q = q
+        self.idx = idx
 
     def is_alive(self):
-        return bool(self.q.last_empty and self.q.last_empty["alive"])
+        le = self.q.last_empty
+        if not le:
+            return False
+        per = le.get("alive_each")
+        if per is not None:
+            return bool(per[self.idx % len(per)])
+        return bool(le["alive"])
 
     def join(self, timeout=None):
         return None
@@ -180,7 +187,7 @@ class _FakeThread:
 class _FakePool:
     def __init__(self, q):
         self.events_queue = q
-        self.workers = [_FakeThread(q), _FakeThread(q)]
+        self.workers = [_FakeThread(q, 0), _FakeThread(q, 1), _FakeThread(q, 2)]
 
     def __enter__(self):
         return self
@@ -261,15 +268,17 @@ def gen_consumer_inputs(rng, n):
             next_id += 1
         elif r < 0.50 and open_ids:
             i = open_ids.pop(rng.randrange(len(open_ids)))
-            st = rng.choice(["success", "success", "failure", "error", "skip", "failure"])
+            st = rng.choice(["success", "skip", "failure", "error", "skip", "failure"])
             ins.append({"k": "got", "e": {"k": "scenFinished", "id": i, "st": st}, "sdy": rng.random() < 0.04})
         elif r < 0.62 and open_ids:
             ins.append({"k": "got", "e": {"k": "nonFatal", "id": rng.choice(open_ids)}, "sdy": rng.random() < 0.04})
         elif r < 0.66:
             ins.append({"k": "got", "e": {"k": "nonFatal", "id": 0}, "sdy": False})
         elif r < 0.90:
-            alive = rng.random() < 0.8
-            ins.append({"k": "empty", "alive": alive, "qempty": rng.random() < 0.7})
+            each = [rng.random() < 0.6 for _ in range(3)]
+            if rng.random() < 0.25:
+                each = [False, False, False]
+            ins.append({"k": "empty", "alive": any(each), "alive_each": each, "qempty": rng.random() < 0.7})
         elif r < 0.93:
             ins.append({"k": "ki"})
         elif r < 0.96 and open_ids:
@@ -548,10 +557,19 @@ def consumer_correspondence(chk, variant, n):
     schema = load_schema("http://127.0.0.1:9", 2)
     rng = chk.rng
     runs, reqs = [], []
-    for _ in range(n):
-        ins = gen_consumer_inputs(rng, rng.randint(1, 14))
-        mf = rng.choice([None, None, 1, 2, 3])
-        real, ctl, used = drive_consumer(schema, ins, mf)
+    import itertools
+    alphabet = [{"k": "got", "e": {"k": "scenFinished", "id": 1, "st": st}, "sdy": False}
+                for st in ("skip", "success", "failure", "error")] + [
+        {"k": "got", "e": {"k": "scenStarted", "id": 2}, "sdy": False}, {"k": "got", "e": {"k": "nonFatal", "id": 1}, "sdy": False},
+        {"k": "empty", "alive": True, "alive_each": [True, False, False], "qempty": True},
+        {"k": "empty", "alive": False, "alive_each": [False, False, False], "qempty": False}]
+    systematic = [list(seq) for L in (1, 2, 3) for seq in itertools.product(alphabet, repeat=L)]
+    if not getattr(chk, "thorough", False):
+        systematic = [q for q in systematic if len(q) < 3] + rng.sample([q for q in systematic if len(q) == 3], 120)
+    plans = [(q, mf) for q in systematic for mf in (None,)] + \
+            [(gen_consumer_inputs(rng, rng.randint(1, 14)), rng.choice([None, None, 1, 2, 3])) for _ in range(n)]
+    for ins, mf in plans:
+        real, ctl, used = drive_consumer(schema, [dict(i) for i in ins], mf)
         runs.append((used, mf, real, ctl))
         reqs.append(("consumer", {"variant": variant, "maxFailures": mf, "inputs": used}))
     outs = drv.batch(reqs)
@@ -571,6 +589,27 @@ def consumer_correspondence(chk, variant, n):
         if not same:
             chk.disagreement("consumer:unit.execute", {"inputs": used, "max_failures": mf},
                              {"out": mo, "ctl": mctl}, {"out": real, "ctl": ctl})
+        # failing-input search: the property's own predicates on what the real consumer did
+        replay = {"inputs": used, "max_failures": mf, "real_stream": real, "real_ctl": ctl}
+        prop = getattr(chk, "prop", "C05")
+        closing = [e for e in real if e["k"] == "phaseFinished"]
+        bad_seen = any((e["k"] == "scenFinished" and e["st"] in ("failure", "error")) or e["k"] == "nonFatal" for e in real)
+        if closing and bad_seen and not ctl["stop"] and closing[-1]["st"] not in ("failure", "error"):
+            chk.violation(f"{prop}:unit.execute:phase-status-hides-a-delivered-failure",
+                          f"a failing scenario / NonFatalError was yielded but the phase finished {closing[-1]['st']} "
+                          "(no stop request)", replay)
+        n_fail = sum(1 for e in real if e["k"] == "scenFinished" and e["st"] in ("failure", "error"))
+        if mf is not None and n_fail > mf:
+            chk.violation(f"{prop}:unit.execute:more-failing-scenarios-yielded-than-max_failures",
+                          f"{n_fail} failing scenarios yielded with max_failures={mf}", replay)
+        # the loop must not be left (no stop / limit / Ctrl-C) while a worker is alive or events are still queued
+        last = used[-1] if used else None
+        left_early = (closing and not ctl["stop"] and not ctl["limit"] and last is not None and last["k"] == "empty"
+                      and (last["alive"] or (variant == "repaired" and not last["qempty"])))
+        if left_early:
+            chk.violation(f"{prop}:unit.execute:loop-left-while-a-worker-is-alive-or-events-are-queued",
+                          "the consumer left its loop although a worker was still alive (or events were still queued): "
+                          "everything reported afterwards is lost", replay)
         yield used, mf, real, ctl
 
 
